@@ -44,6 +44,7 @@ type runRec struct {
 	KeyType         string `json:"user_key_type"`
 	LogName         string `json:"login_name"`
 	NilParam        bool   `json:"nil_param,omitempty"`
+	Vouching        string `json:"declared_requester_with_a_registered_key,omitempty"`
 	Result          string `json:"result"`
 	SignReqs        int    `json:"sign_requests_seen"`
 	AddFrames       int    `json:"add_frames_seen"`
@@ -204,6 +205,7 @@ func sequence(r *ev.Run, c *ev.Case, seqNo int, mon *chalMon) {
 	var prevSig *ssh.Signature
 	nruns := 2 + rng.Intn(5)
 	seqLogin := gsrig.LogName(rng)
+	var vouchFiles []string
 	for run := 0; run < nruns; run++ {
 		if r.NumViolations() > 10 {
 			return
@@ -382,6 +384,22 @@ func sequence(r *ev.Run, c *ev.Case, seqNo int, mon *chalMon) {
 		}
 		if rng.Intn(4) == 0 {
 			ps2.ReqUser = logName // client claims equal to the login name
+		}
+		// the declared requester may be somebody whose key IS registered, and whom the agent can answer for: it is the
+		// login name's registered key that counts (a generator of its own, so that the case streams above stay as they were)
+		for _, f := range vouchFiles {
+			kd.Delete(f)
+		}
+		vouchFiles = nil
+		if vr := mrand.New(mrand.NewSource(r.Seed*1000003 + int64(seqNo)*131 + int64(run))); vr.Intn(3) == 0 {
+			ps2.ReqUser = "vouch" + gen.Ident(vr, 5)
+			k := []*gen.Key{other, user}[vr.Intn(2)]
+			for _, f := range [][]string{{ps2.ReqUser + ".pub"}, {ps2.ReqUser}, {ps2.ReqUser + ".pub", ps2.ReqUser}}[vr.Intn(3)] {
+				kd.Write(f, line(k))
+				vouchFiles = append(vouchFiles, f)
+			}
+			rec.Vouching = ps2.ReqUser
+			r.Count("runs whose declared requester has a registered key of its own", 1)
 		}
 		rec.Policy, rec.HardKey = ps2.Policy, ps2.HardKey
 		param := gsrig.Param(ps2)
